@@ -269,6 +269,7 @@ func (c *Ctx) c15Chunk(stage *ssa.Function) {
 		}
 	})
 	c.AddE1(res, false)
+	c.chunkStageRule("S.reply", stage, res[0])
 	// idempotence of the accounting: the record of an offset is overwritten only after its old length was looked up under the
 	// same key and taken back
 	for _, b := range stage.Blocks {
@@ -998,4 +999,83 @@ func (c *Ctx) defaultHandlerFieldType(name string) types.Type {
 		}
 	}
 	return nil
+}
+
+// chunkStageRule: whether the read loop answers is decided from the progress stage alone, after every extracted item.
+// So every successful return of the chunk step must leave a stage for which hasJT808Reply() is false; otherwise the
+// previous control frame's reply is sent again for each chunk (stale 0x9212 while the terminal is resending).
+func (c *Ctx) chunkStageRule(rule string, stage *ssa.Function, r *E1Result) {
+	R := c.R
+	hr := c.P.Method("attachment", "PackageProgress", "hasJT808Reply")
+	if hr == nil {
+		R.Fatal("anchor PackageProgress.hasJT808Reply not found")
+		return
+	}
+	// the stages that are answered, by evaluating hasJT808Reply for every stage constant
+	answered := map[int64]string{}
+	for k := int64(0); k < 16; k++ {
+		name := c.stageName(k)
+		if name == "" {
+			continue
+		}
+		a := c.NewE1(pkgOf(hr), false)
+		st := absint.NewState()
+		recv := a.Unknown(hr.Params[0].Type(), "p", st)
+		a.StoreField(st, recv, hr.Params[0].Type(), "ProgressStage", absint.Int{L: absint.Const(k)})
+		_, rets := a.RunEntry(hr, st, []absint.Term{recv}, nil)
+		for _, rt := range absint.Rets(rets) {
+			if a.Render(rt.Val) != "false" {
+				answered[k] = name
+			}
+		}
+	}
+	if len(answered) == 0 {
+		R.Fatal("hasJT808Reply answers no stage (anchor)")
+		return
+	}
+	n, ok, d := 0, true, ""
+	for _, ret := range r.Rets {
+		if _, isNil := ret.Val.(absint.NilT); !isNil {
+			if ifc, isI := ret.Val.(*absint.Iface); !isI || ifc.Val != nil {
+				continue
+			}
+		}
+		n++
+		sv, _ := r.A.LoadField(ret.St, r.Recv, stage.Params[0].Type(), "ProgressStage")
+		si, isInt := sv.(absint.Int)
+		if !isInt {
+			ok, d = false, "the stage after a chunk is not an integer term"
+			continue
+		}
+		for k, name := range answered {
+			if ret.St.Feasible(absint.Con{L: si.L.AddC(-k), Rel: absint.EQ}) {
+				ok = false
+				d = fmt.Sprintf("after a chunk was taken from the buffer the stage can be %s, for which hasJT808Reply() is true: the reply to the previous control frame is written again for this chunk", name)
+			}
+		}
+	}
+	st := report.Discharged
+	if !ok || n == 0 {
+		st = report.Violated
+		if n == 0 {
+			d = "no successful return of the chunk step analysed"
+		}
+	}
+	R.Add(rule, shortFn(stage)+" / a chunk leaves a stage that is not answered", c.P.RelPos(stage.Pos()), st, d)
+}
+
+// chunkStageStandalone runs the chunk step once (default handlers) and applies chunkStageRule.
+func (c *Ctx) chunkStageStandalone(rule string) {
+	stage := c.P.Method("attachment", "PackageProgress", "stageStreamData")
+	if stage == nil {
+		c.R.Fatal("anchor PackageProgress.stageStreamData not found")
+		return
+	}
+	res := c.RunE1([]*ssa.Function{stage}, false, func(a *absint.Analyzer, f *ssa.Function, st *absint.State, args []absint.Term) {
+		a.NoExternalImpl = func(t types.Type) bool { return true }
+	})
+	for _, u := range dedupe(res[0].Undecided) {
+		c.R.Add("E1.undecided", shortFn(stage)+" / "+u, "", report.Undecided, u)
+	}
+	c.chunkStageRule(rule, stage, res[0])
 }
